@@ -377,6 +377,71 @@ def _suffix_helpers(prog, cg, chk, W2, roots):
                               short, bad[0][0]))
     if n < 2:
         chk.fail_broken('W2: the file-name / extension helpers were not found among the callees of the path writers')
+    _extension_of_file_name(prog, cg, chk, W2, reach)
+
+
+def _extension_of_file_name(prog, cg, chk, W2, reach):
+    """The extension is the part after the last '.' OF THE FILE NAME: a '.' in a directory name is no extension
+    separator.  A helper that cuts at '.' therefore either cuts at '/' itself first (calls a '/'-cutting helper on
+    its parameter, or searches for '/' as well), or every call of it passes a value that was cut at '/' - the result
+    of a call (a '/'-cutting helper, an accessor of the stored file name), directly or through a local initialised
+    from one; never a stored or given path as it is."""
+    def searched(g):
+        out = set()
+        for x in walk(g.body):
+            if x.get('kind') == 'CXXMemberCallExpr' and (strip(children(x)[0]).get('name') or '') in (
+                    'find', 'rfind', 'find_first_of', 'find_last_of'):
+                a = children(x)[1:]
+                v = program.literal_value(strip(a[0], explicit=True)) if a else None
+                if isinstance(v, int):
+                    v = chr(v)
+                if isinstance(v, str):
+                    out.add(v)
+        return out
+    helpers = [g for k, (g, _, _) in reach.items() if g.body is not None and (g.qualname or '').startswith('djinterop::util::')
+               and len(g.params) == 1 and 'string' in (g.params[0].get('type') or '')]
+    slash = [g for g in helpers if '/' in searched(g)]
+    dot = [g for g in helpers if '.' in searched(g) and '/' not in searched(g)]
+    slash_names = {g.name for g in slash}
+    for g in dot:
+        short = (g.qualname or '').replace('djinterop::', '')
+        calls_slash = any(x.get('kind') == 'CallExpr' and
+                          (strip(children(x)[0]).get('referencedDecl') or {}).get('name') in slash_names for x in walk(g.body))
+        if calls_slash:
+            chk.ok(W2, '%s cuts at the last \'/\' before it looks for the last \'.\'' % short, locstr(g.node))
+            continue
+        bad = None
+        nsites = 0
+        for h in prog.functions.values():
+            if h.body is None or h.is_pattern or not prog.in_repo(h.file) or '/src/' not in (h.file or ''):
+                continue
+            single = program.single_assignment_locals(h.node)
+            for x in walk(h.body):
+                if x.get('kind') != 'CallExpr' or (strip(children(x)[0]).get('referencedDecl') or {}).get('name') != g.name:
+                    continue
+                if len(children(x)) != 2:
+                    continue
+                nsites += 1
+                a = strip(children(x)[1], explicit=True)
+                while a.get('kind') in ('MaterializeTemporaryExpr', 'CXXBindTemporaryExpr', 'ExprWithCleanups',
+                                        'CXXConstructExpr') and len(children(a)) == 1:
+                    a = strip(children(a)[0], explicit=True)
+                if a.get('kind') == 'DeclRefExpr' and (a.get('referencedDecl') or {}).get('id') in single:
+                    a = strip(single[(a.get('referencedDecl') or {}).get('id')], explicit=True)
+                    while a.get('kind') in ('MaterializeTemporaryExpr', 'CXXBindTemporaryExpr', 'ExprWithCleanups',
+                                            'CXXConstructExpr') and len(children(a)) == 1:
+                        a = strip(children(a)[0], explicit=True)
+                if a.get('kind') not in ('CallExpr', 'CXXMemberCallExpr'):
+                    bad = bad or (h, x)
+        if bad:
+            h, x = bad
+            chk.violation(W2, '%s|extension taken from a path' % short, locstr(x),
+                          '%s looks for the last \'.\' in its argument without cutting at \'/\' first, and %s passes it a path '
+                          'as it is (not the result of a file-name cut): for an extension-less file below a directory with a '
+                          'dot in its name, the text after that dot - directory separator included - is stored as the file '
+                          'type' % (short, (h.qualname or '').replace('djinterop::engine::', '')))
+        else:
+            chk.ok(W2, '%s: all %d call(s) pass a value that was cut at the last \'/\'' % (short, nsites), locstr(g.node))
 
 
 def _helper_statements(prog, cg, eff, cls, trace):
